@@ -4,18 +4,46 @@ from lib import common, pipeline, cases, cpucheck
 PROP = "C11"
 F = pipeline.FIELDS
 
-def pair(rng, cid, c, cb=None):
+def pair(rng, cid, c, cb=None, variant=None):
     """DD form from s, FD form from swap(s); third line: DD form from s with another IY (must be ignored)."""
     enc = ("dd", c, [0xDD, c]) if cb is None else ("ddcb", cb, [0xDD, 0xCB, None, cb])
     la = cases.make_case(rng, cid + "a", enc)
     t = la.split()
-    if rng.chance(1, 2):
+    if variant in ("lowFF", "low00", "hiFF", "hi00"):
+        # deterministic: the carry / borrow between the halves of the index registers
+        lo = {"lowFF": 0xFF, "low00": 0x00}.get(variant)
+        hi = {"hiFF": 0xFF, "hi00": 0x00}.get(variant)
+        for q in (18, 19):
+            v = int(t[5 + q])
+            if lo is not None:
+                v = (v & 0xFF00) | lo
+            if hi is not None:
+                v = (v & 0x00FF) | (hi << 8)
+            t[5 + q] = str(v)
+        la = " ".join(t)
+    elif variant in ("dneg", "dpos") and cb is not None:
+        # the displacement byte (third byte of DD CB d xx): both signs, deterministically
+        pc0 = int(t[5 + 21])
+        q = 5 + 26 + 7
+        ns = int(t[q]); q += 1
+        for _ in range(ns):
+            q += 3 + int(t[q + 2])
+        q += 1
+        nm0 = int(t[q]); q += 1
+        for j in range(nm0):
+            if int(t[q + 2 * j]) == ((pc0 + 2) & 0xFFFF):
+                t[q + 2 * j + 1] = str((0x80 | rng.below(128)) if variant == "dneg" else rng.below(128))
+        la = " ".join(t)
+    elif variant == "stack":
+        t = with_ix_from_stack(t)
+        la = " ".join(t)
+    elif rng.chance(1, 2):
         # index registers with edge bytes (carries between the halves: INC IXL at xxFFh, DEC IXH at 00xxh, wrap of IX+d)
         eb = lambda: rng.choice([0x00, 0x01, 0x7F, 0x80, 0xFE, 0xFF, rng.below(256)])
         t[5 + 18] = str((eb() << 8) | eb())
         t[5 + 19] = str((eb() << 8) | eb())
         la = " ".join(t)
-    if rng.chance(1, 6) or (cb is None and c == 0xE3 and rng.chance(1, 2)):
+    if variant is None and (rng.chance(1, 6) or (cb is None and c == 0xE3 and rng.chance(1, 2))):
         # the index register equal to the word on the stack (EX (SP),IX with nothing to exchange, PUSH/POP coincidences)
         t = with_ix_from_stack(t)
         la = " ".join(t)
@@ -58,13 +86,13 @@ def gen(rng, tier):
     n = 4 if tier == "quick" else 400
     k = 0
     for c in range(256):
-        for _ in range(n):
+        for v in [None] * n + ["lowFF", "low00", "hiFF", "hi00", "stack"]:
             if c == 0xCB:
                 continue
-            a, b, cc = pair(rng, "p%d" % k, c); k += 1
+            a, b, cc = pair(rng, "p%d" % k, c, variant=v); k += 1
             lines += [a, b, cc]; meta[a.split()[1][:-1]] = ("dd/fd", "%02X" % c)
-        for _ in range(max(1, n // 2)):
-            a, b, cc = pair(rng, "p%d" % k, 0xCB, cb=c); k += 1
+        for v in [None] * max(1, n // 2) + ["dneg", "dpos", "lowFF", "hi00"]:
+            a, b, cc = pair(rng, "p%d" % k, 0xCB, cb=c, variant=v); k += 1
             lines += [a, b, cc]; meta[a.split()[1][:-1]] = ("ddcb/fdcb", "%02X" % c)
     return lines, meta
 
